@@ -23,3 +23,10 @@ Definition e_errs (l : list (module * msrc)) (s : msrc) (u : tkey) : list merr :
 (* triggers fired for module [m] between two programs *)
 Definition e_diff (l l' : list (module * msrc)) (m : module) : list trigger :=
   mdiff (c_syms_of e_w) osig_eqb m (genv e_key_of (prog_of l)) (genv e_key_of (prog_of l')).
+
+(* a multiple-inheritance example: class 4 has bases [3; 2]; attribute 2 is declared only in the SECOND base *)
+Open Scope positive_scope.
+Definition mi_mod : msrc :=
+  mkM [] []
+      [(6, mkF [TInst 1 4] TInt [SCheck TInt (EAttr (EParam 0%nat) 2); SCheck TStr (EAttr (EParam 0%nat) 2)])]
+      [(2, mkC [] [(2, TInt)] []); (3, mkC [] [] []); (4, mkC [(1, 3); (1, 2)] [] [])].
